@@ -122,11 +122,11 @@ pub struct Response {
 
 struct Propagate;
 
-pub struct Executor<'a, R: Resolvers> {
+pub struct Executor<'a, 'r, R: Resolvers> {
     pub schema: &'a RefSchema,
     pub doc: &'a Document,
     pub variables: &'a JsonMap,
-    pub resolvers: &'a mut R,
+    pub resolvers: &'r mut R,
     pub short_circuit: bool,
     errors: Vec<ExecError>,
     calls: Vec<CallRecord>,
@@ -181,8 +181,8 @@ pub fn coerce_result(schema: &RefSchema, name: &str, v: &Json) -> Result<(), boo
     }
 }
 
-impl<'a, R: Resolvers> Executor<'a, R> {
-    pub fn new(schema: &'a RefSchema, doc: &'a Document, variables: &'a JsonMap, resolvers: &'a mut R, short_circuit: bool) -> Self {
+impl<'a, 'r, R: Resolvers> Executor<'a, 'r, R> {
+    pub fn new(schema: &'a RefSchema, doc: &'a Document, variables: &'a JsonMap, resolvers: &'r mut R, short_circuit: bool) -> Self {
         Executor { schema, doc, variables, resolvers, short_circuit, errors: vec![], calls: vec![], unspecified: vec![] }
     }
 
@@ -487,6 +487,28 @@ impl<'a, R: Resolvers> Executor<'a, R> {
 /// Execute operation `op` of `doc`.
 pub fn execute<R: Resolvers>(schema: &RefSchema, doc: &Document, op: &OperationDef, variables: &JsonMap, resolvers: &mut R, short_circuit: bool) -> Response {
     Executor::new(schema, doc, variables, resolvers, short_circuit).execute(op)
+}
+
+struct NoResolvers;
+impl Resolvers for NoResolvers {
+    fn resolve(&mut self, _call: &Call) -> Outcome {
+        Outcome::Error
+    }
+}
+
+/// CollectFields (6.3.2) of the merged selection sets `sets` for concrete object type
+/// `object_type`: response keys in order, each with its field selections. The flag says whether
+/// something unspecified was met (`@skip`/`@include` without a boolean).
+pub fn collect_fields<'a>(schema: &'a RefSchema, doc: &'a Document, variables: &'a JsonMap, object_type: &str, sets: &[&'a [Selection]]) -> (Vec<(String, Vec<&'a Field>)>, bool) {
+    let mut r = NoResolvers;
+    let mut ex = Executor::new(schema, doc, variables, &mut r, true);
+    let mut grouped = vec![];
+    let mut visited = BTreeSet::new();
+    for s in sets {
+        ex.collect_fields(object_type, s, &mut visited, &mut grouped);
+    }
+    let unspecified = !ex.unspecified.is_empty();
+    (grouped, unspecified)
 }
 
 // ------------------------------------------------------------------------------------------------
